@@ -14,7 +14,7 @@
                   in the middle of a batch (s, t) and staging it at the head of a fresh
                   batch over the flushed store give the same operations and result, and
                   running those operations keeps Agree
-     H_fatal      whether staging fails does not depend on the state
+     H_fatal      whether staging a good command fails does not depend on the state
      H_finish     the SetSlotAppliedIndex operations succeed and stay inside eqv
    Theorems:
      machine_batch_eq_singles     a batch that returns results = one command per batch
@@ -70,7 +70,7 @@ Section MachineTheory.
       | _, _ => False
       end.
 
-  Hypothesis H_fatal : forall s t c e, stage s t c = SFatal e -> forall s' t', stage s' t' c = SFatal e.
+  Hypothesis H_fatal : forall s t c e, good c -> stage s t c = SFatal e -> forall s' t', stage s' t' c = SFatal e.
 
   Hypothesis H_finish : forall s v cs, Vinv s v ->
       exists v', run_ops run_op s v (finish cs) = OOk v' /\ eqv (flush s v') (flush s v) /\ Vinv s v'.
@@ -163,7 +163,7 @@ Section MachineTheory.
       assert (Hone : apply_one s1 c = (flush s1 w', inr x)).
       { unfold SlotFSM.apply_one. rewrite (apply_core_single s1 c t1 ops_c x Hs1).
         rewrite run_ops_app, Hrw, Hfin. reflexivity. }
-      destruct (IH s t' v' (flush s1 w') ops_r rs' vf Hcs Vv' (Hag v' eq_refl)) as (s1' & Hind & Efin & Vfin); auto.
+      destruct (IH s t' v' (flush s1 w') ops_r rs' vf Hcs Vv' (Hag v' Hrc)) as (s1' & Hind & Efin & Vfin); auto.
       { eapply eqv_trans; eauto. }
       exists s1'. split; [|split; assumption].
       cbn [SlotFSM.apply_individually]. rewrite Hone, Hind. reflexivity.
@@ -207,17 +207,19 @@ Section MachineTheory.
 
   (* a staging error: the one-per-batch run fails as well (at that command or earlier) *)
   Lemma stage_fatal_singles cs : forall s t e s1,
+      Forall good cs ->
       stage_all s t cs = inl e -> exists s1' e', apply_individually s1 cs = (s1', BErr e').
   Proof.
-    induction cs as [|c cs IH]; intros s t e s1 Hst; cbn [SlotFSM.stage_all] in Hst; [discriminate|].
+    induction cs as [|c cs IH]; intros s t e s1 Hg Hst; cbn [SlotFSM.stage_all] in Hst; [discriminate|].
+    inversion Hg as [|? ? Hc Hcs]; subst.
     cbn [SlotFSM.apply_individually].
     destruct (stage s t c) as [e0|t' ops_c x] eqn:Hsc.
-    - pose proof (H_fatal s t c e0 Hsc s1 t0) as Hf.
+    - pose proof (H_fatal s t c e0 Hc Hsc s1 t0) as Hf.
       exists s1, e0. unfold SlotFSM.apply_one, SlotFSM.apply_core. cbn [SlotFSM.stage_all]. rewrite Hf. reflexivity.
     - destruct (stage_all s t' cs) as [e0|[ops_r rs']] eqn:Hsr; [|discriminate].
       destruct (apply_one s1 c) as [sx [ex|x']] eqn:Hone.
       + exists sx, ex. reflexivity.
-      + destruct (IH s t' e0 sx Hsr) as (s1' & e' & Hind). exists s1', e'. rewrite Hind. reflexivity.
+      + destruct (IH s t' e0 sx Hcs Hsr) as (s1' & e' & Hind). exists s1', e'. rewrite Hind. reflexivity.
   Qed.
 
   (* ---- the theorems --------------------------------------------------------------------------- *)
@@ -265,7 +267,7 @@ Section MachineTheory.
       unfold SlotFSM.apply_core in Hc.
       destruct (stage_all s t0 cs) as [e0|[ops rs0]] eqn:Hst.
       + inversion Hc; subst e0.
-        destruct (stage_fatal_singles cs s t0 e s Hst) as (s1' & e' & Hind).
+        destruct (stage_fatal_singles cs s t0 e s Hg Hst) as (s1' & e' & Hind).
         exists s1', e'. split; [assumption|left; reflexivity].
       + rewrite run_ops_app in Hc.
         destruct (H_init s) as (Hv & Ha & Hf).
@@ -280,8 +282,7 @@ Section MachineTheory.
           { rewrite Hf. apply eqv_refl. }
           exists s1', e. split; [assumption|left; reflexivity].
     - destruct cs as [|c [|c2 cs]]; try discriminate.
-      + exists s', e. split; [exact H|right; reflexivity].
-      + exists s', e. split; [exact H|right; reflexivity].
+      exists s', e. split; [exact H|right; reflexivity].
     - discriminate.
   Qed.
 
@@ -384,3 +385,77 @@ Section MachineTheory.
         * eapply eqv_trans; eauto.
   Qed.
 End MachineTheory.
+
+(* ---- the hypotheses as one predicate, and the theorems restated over it ---------------------------------- *)
+
+Definition overlay_machine {S T V O C R : Type}
+           (stage : S -> T -> C -> @sres T O R) (t0 : T) (finish : list C -> list O) (v0 : S -> V)
+           (run_op : S -> V -> O -> @ores V) (flush : S -> V -> S)
+           (eqv : S -> S -> Prop) (good : C -> Prop) (good_op : O -> Prop)
+           (Vinv : S -> V -> Prop) (Agree : S -> T -> V -> Prop) : Prop :=
+  (forall s, eqv s s) /\ (forall a b, eqv a b -> eqv b a) /\ (forall a b c, eqv a b -> eqv b c -> eqv a c)
+  (* the empty overlay *)
+  /\ (forall s, Vinv s (v0 s) /\ Agree s t0 (v0 s) /\ flush s (v0 s) = s)
+  (* deferred operations read only through the overlay *)
+  /\ (forall s v s' v' o, good_op o -> Vinv s v -> Vinv s' v' -> eqv (flush s v) (flush s' v') ->
+        sim_ores flush eqv Vinv s s' (run_op s v o) (run_op s' v' o))
+  (* the command loop reads only through the staging state, which tracks the overlay *)
+  /\ (forall s t v s1 c, good c -> Vinv s v -> Agree s t v -> eqv s1 (flush s v) ->
+        match stage s t c, stage s1 t0 c with
+        | SFatal e, SFatal e' => e = e'
+        | SDone t' ops r, SDone _ ops' r' =>
+            ops = ops' /\ r = r' /\ Forall good_op ops /\
+            (forall v', run_ops run_op s v ops = OOk v' -> Agree s t' v')
+        | _, _ => False
+        end)
+  (* staging errors (decode, ownership, validation) do not depend on the state *)
+  /\ (forall s t c e, good c -> stage s t c = SFatal e -> forall s' t', stage s' t' c = SFatal e)
+  (* the applied-index watermark stays inside eqv *)
+  /\ (forall s v cs, Vinv s v ->
+        exists v', run_ops run_op s v (finish cs) = OOk v' /\ eqv (flush s v') (flush s v) /\ Vinv s v').
+
+Section Restated.
+  Context {S T V O C R : Type}.
+  Variable stage : S -> T -> C -> @sres T O R.
+  Variable t0 : T.
+  Variable finish : list C -> list O.
+  Variable v0 : S -> V.
+  Variable run_op : S -> V -> O -> @ores V.
+  Variable flush : S -> V -> S.
+  Variable r_stale : R.
+  Variable eqv : S -> S -> Prop.
+  Variable good : C -> Prop.
+  Variable good_op : O -> Prop.
+  Variable Vinv : S -> V -> Prop.
+  Variable Agree : S -> T -> V -> Prop.
+  Hypothesis M : overlay_machine stage t0 finish v0 run_op flush eqv good good_op Vinv Agree.
+
+  Lemma overlay_seq s cs s' rs :
+    Forall good cs ->
+    ApplyBatch stage t0 finish v0 run_op flush r_stale s cs = (s', BRes rs) ->
+    exists s'', apply_individually stage t0 finish v0 run_op flush r_stale s cs = (s'', BRes rs) /\ eqv s'' s'.
+  Proof.
+    destruct M as (A & B & C' & D & E & F & G & H).
+    eapply machine_batch_eq_singles; eauto.
+  Qed.
+
+  Lemma overlay_fatal s cs s' e :
+    Forall good cs ->
+    ApplyBatch stage t0 finish v0 run_op flush r_stale s cs = (s', BErr e) ->
+    exists s'' e', apply_individually stage t0 finish v0 run_op flush r_stale s cs = (s'', BErr e')
+                   /\ (s' = s \/ s' = s'').
+  Proof.
+    destruct M as (A & B & C' & D & E & F & G & H).
+    eapply machine_fatal_agrees; eauto.
+  Qed.
+
+  Lemma overlay_partition bs s s' rs :
+    Forall good (concat bs) ->
+    apply_individually stage t0 finish v0 run_op flush r_stale s (concat bs) = (s', BRes rs) ->
+    exists s'' outs, apply_partition stage t0 finish v0 run_op flush r_stale s bs = (s'', outs)
+                     /\ all_results outs = Some rs /\ eqv s'' s'.
+  Proof.
+    destruct M as (A & B & C' & D & E & F & G & H).
+    eapply machine_partition_invariant; eauto.
+  Qed.
+End Restated.
